@@ -182,6 +182,28 @@ func (g *PG) Expr(t Ty, d int) *canon.Node {
 			f := Pick(r, fs).name
 			return li(sy("do"), g.tr(li(sy(f), li(sy("do"), li(sy("def"), sy(f), li(sy("fn"), li(sy("zz1")), canon.Ke("redefined"))), canon.In(r.Intn(5))))), g.tr(li(sy(f), canon.In(1))), g.Expr(t, d+1))
 		}
+	case 10:
+		// a closure captures a name of a scope the evaluator itself created (let, parameters, catch variable); a later
+		// let in tail position of that same scope binds the same name: the closure keeps seeing the first binding
+		g.stat("capture-then-shadow")
+		x, cl := g.fresh("x"), g.fresh("g")
+		e1 := g.Expr(TInt, d+2)
+		e2 := g.with([]pvar{{x, TInt}}, func() *canon.Node { return g.Expr(TInt, d+2) })
+		inner := li(sy("let"), li(sy(x), e2), li(sy("list"), li(sy(cl)), sy(x)))
+		if r.Intn(3) == 0 {
+			inner = li(sy("if"), canon.Bo(true), li(sy("do"), g.mark(), inner), canon.N())
+		}
+		capt := li(sy("let"), li(sy(cl), li(sy("fn"), li(), sy(x))), inner)
+		var pat *canon.Node
+		switch k := r.Intn(3); {
+		case k == 0:
+			pat = li(sy("let"), li(sy(x), e1, sy(cl), li(sy("fn"), li(), sy(x))), inner)
+		case k == 1 || !g.o.Try:
+			pat = li(li(sy("fn"), li(sy(x)), g.mark(), capt), e1)
+		default:
+			pat = li(sy("try"), li(sy("throw"), e1), li(sy("catch"), sy(x), capt))
+		}
+		return li(sy("do"), g.tr(pat), g.Expr(t, d+1))
 	}
 	switch t {
 	case TInt:
@@ -206,6 +228,19 @@ func (g *PG) Expr(t Ty, d int) *canon.Node {
 			g.stat("rest-param")
 			a, rs := g.fresh("a"), g.fresh("r")
 			n := r.Intn(4)
+			if r.Intn(3) == 0 {
+				// two positional parameters before the rest parameter, called with exactly two or more arguments
+				g.stat("rest-param-2")
+				b := g.fresh("b")
+				args := []*canon.Node{g.Expr(TInt, d+1), g.Expr(TInt, d+1)}
+				for i := 0; i < n; i++ {
+					args = append(args, g.Expr(TInt, d+1))
+				}
+				body := g.with([]pvar{{a, TInt}, {b, TInt}, {rs, TList}}, func() *canon.Node {
+					return call("+", call("+", sy(a), sy(b)), call("count", sy(rs)))
+				})
+				return li(append([]*canon.Node{li(sy("fn"), li(sy(a), sy(b), sy("&"), sy(rs)), body)}, args...)...)
+			}
 			args := []*canon.Node{g.Expr(TInt, d+1)}
 			for i := 0; i < n; i++ {
 				args = append(args, g.Expr(TInt, d+1))
@@ -428,7 +463,14 @@ func (g *PG) genLet(t Ty, d int) *canon.Node {
 func (g *PG) thrownObject() *canon.Node {
 	r := g.r
 	q := func(n *canon.Node) *canon.Node { return call("quote", n) }
-	switch r.Intn(10) {
+	switch r.Intn(12) {
+	case 10:
+		// falsy and empty objects are thrown values like any other
+		g.stat("throw-falsy-or-empty")
+		return Pick(r, []*canon.Node{canon.N(), canon.Bo(false), canon.In(0), canon.St(""), canon.Ve(), li(sy("list")), canon.Ma(map[string]*canon.Node{})})
+	case 11:
+		g.stat("throw-falsy-or-empty")
+		return li(sy("if"), canon.Bo(false), canon.In(1))
 	case 0:
 		g.stat("throw-call-shaped")
 		return q(li(sy("+"), canon.In(1), canon.In(2)))
@@ -933,6 +975,19 @@ func (g *PG) injectFault(forms []*canon.Node) []*canon.Node {
 		func() *canon.Node {
 			g.stat("fault-arity-many")
 			return li(li(sy("fn"), li(sy("a")), sy("a")), g.tr(canon.In(1)), g.tr(canon.In(2)))
+		},
+		func() *canon.Node {
+			// a function with positional parameters before & called with too few arguments: an arity error, the body
+			// must not run; directly and through apply
+			g.stat("fault-arity-rest-few")
+			f := li(sy("fn"), li(sy("a"), sy("b"), sy("&"), sy("more")), li(sy("do"), g.mark(), sy("a")))
+			switch r.Intn(3) {
+			case 0:
+				return li(f, g.tr(canon.In(1)))
+			case 1:
+				return li(f)
+			}
+			return call("apply", f, call("list", g.tr(canon.In(1))))
 		},
 		func() *canon.Node { g.stat("fault-builtin-type"); return call("+", g.tr(canon.In(1)), canon.St("s")) },
 		func() *canon.Node { g.stat("fault-unbound-head"); return li(sy("zz-unbound-fn"), g.mark()) },
